@@ -51,6 +51,7 @@ Section Layout.
   Notation put_obj := (put_obj fmt encS c).
   Notation finish_stream := (finish_stream fmt_sd encS encB fenc c).
   Notation flush_after := (flush_after fmt fmt_sd encS encB fenc c).
+  Notation flush_objs := (flush_objs fmt encS c).
   Notation close_stream := (close_stream fmt fmt_sd encS encB fenc c).
   Notation put := (put fmt fmt_sd encS encB fenc c).
   Notation put_all := (put_all fmt fmt_sd encS encB fenc c).
@@ -329,14 +330,17 @@ Section Layout.
   Qed.
 
   (* closing the stream itself: its chunk goes out at the offset recorded at OpenStream *)
-  Lemma finish_stream_inv st big st' :
-    Inv st (after st) -> finish_stream big st = Ok st' ->
-    Inv st' (after st') /\ strm st' = None /\ closed st' = closed st /\ xtab st' = xtab st /\
-    (exists s, strm st = Some s).
+  Lemma finish_stream_gen st pend big st' :
+    Inv st pend -> finish_stream big st = Ok st' ->
+    exists extra,
+      after st' = after st ++ extra /\ Inv st' (pend ++ extra) /\
+      strm st' = None /\ closed st' = closed st /\ xtab st' = xtab st /\
+      (exists s, strm st = Some s) /\
+      (forall x, In x extra -> exists r len, x = (r, 0, PObj (OInt len))).
   Proof.
     intros I H. unfold Writer.finish_stream in H. destruct (strm st) as [s0|] eqn:Hs0; [|discriminate].
     cbv zeta in H. binv H. destruct a as [s st1].
-    assert (S1 : Inv st1 (after st) /\ s_num s = s_num s0 /\ s_gen s = s_gen s0 /\ s_dict s = s_dict s0 /\
+    assert (S1 : Inv st1 pend /\ s_num s = s_num s0 /\ s_gen s = s_gen s0 /\ s_dict s = s_dict s0 /\
                  s_fs s = s_fs s0 /\ s_buf s = s_buf s0 /\ strm st1 = strm st /\ after st1 = after st /\
                  closed st1 = closed st /\ out st1 = out st /\ pos st1 = pos st /\ xref st1 = xref st /\
                  wr st1 = wr st /\ xtab st1 = xtab st).
@@ -352,17 +356,17 @@ Section Layout.
     set (sd := map (fun kv : bytes * obj => let (k0, v) := kv in (k0, map_str (sc encS c n g) v))
                    (stream_dict n g (s_dict s0) (s_fs s0))) in *.
     (* the common shape of the successful outcomes *)
-    assert (Main : forall lr pend',
-      (forall x, In x (after st) -> In x pend') ->
+    assert (Main : forall lr aft pend',
+      (forall x, In x pend -> In x pend') ->
       len_ok st1 pend' lr (N.of_nat (length raw)) ->
       Inv (record n g (VStream (s_dict s0) (s_fs s0) (s_buf s0))
-                   (with_after pend' (with_strm None (emit (stream_chunk fmt_sd c n g sd lr raw) st1)))) pend').
-    { intros lr pend' Hsub Hlen.
+                   (with_after aft (with_strm None (emit (stream_chunk fmt_sd c n g sd lr raw) st1)))) pend').
+    { intros lr aft pend' Hsub Hlen.
       match goal with |- Inv ?x _ => set (st2 := x) end.
       assert (E : ext st1 st2) by (eexists; cbn; split; reflexivity).
       assert (G : grows st1 st2).
       { split; cbn; intros m e He; [exact He | rewrite wlookup_app, He; reflexivity]. }
-      assert (Pm : forall r len, In (r, 0, PObj (OInt (Z.of_N len))) (after st) ->
+      assert (Pm : forall r len, In (r, 0, PObj (OInt (Z.of_N len))) pend ->
                        In (r, 0, PObj (OInt (Z.of_N len))) pend' \/ written_int st2 r len).
       { intros r len Hin. left. apply Hsub. exact Hin. }
       constructor.
@@ -376,7 +380,7 @@ Section Layout.
           * exists lr. split; [reflexivity|].
             destruct lr; cbn in *; auto. destruct Hlen as [Hl|Hl]; [left; exact Hl|].
             right. eapply written_int_grows; eassumption.
-        + destruct (use_kept st1 st2 (after st) pend' m off g' I1 E G Pm Hm) as [[s1 [A1 A2]]|[[A1 A2]|A]].
+        + destruct (use_kept st1 st2 pend pend' m off g' I1 E G Pm Hm) as [[s1 [A1 A2]]|[[A1 A2]|A]].
           * exfalso. rewrite B6, Hs0 in A1. inversion A1; subst s1. apply Hne. symmetry. exact A2.
           * right; left. cbn. auto.
           * right; right. exact A.
@@ -386,57 +390,60 @@ Section Layout.
         + cbn in Hm. destruct (m =? n) eqn:Emn; [|discriminate]. apply N.eqb_eq in Emn. subst m.
           rewrite Xs. discriminate.
       - cbn. discriminate. }
-    assert (Fin : forall lr pend' st2,
-      (forall x, In x (after st) -> In x pend') ->
-      len_ok st1 pend' lr (N.of_nat (length raw)) ->
+    assert (Fin : forall lr extra st2,
+      len_ok st1 (pend ++ extra) lr (N.of_nat (length raw)) ->
+      (forall x, In x extra -> exists r len, x = (r, 0, PObj (OInt len))) ->
       st2 = record n g (VStream (s_dict s0) (s_fs s0) (s_buf s0))
-                   (with_after pend' (with_strm None (emit (stream_chunk fmt_sd c n g sd lr raw) st1))) ->
-      Inv st2 (after st2) /\ strm st2 = None /\ closed st2 = closed st /\ xtab st2 = xtab st /\
-      (exists s1, Some s0 = Some s1)).
-    { intros lr pend' st2 Hsub Hlen ->. cbn. split; [apply Main; assumption|]. repeat split; eauto. }
+                   (with_after (after st ++ extra) (with_strm None (emit (stream_chunk fmt_sd c n g sd lr raw) st1))) ->
+      exists extra,
+        after st2 = after st ++ extra /\ Inv st2 (pend ++ extra) /\
+        strm st2 = None /\ closed st2 = closed st /\ xtab st2 = xtab st /\
+        (exists s1, Some s0 = Some s1) /\
+        (forall x, In x extra -> exists r len, x = (r, 0, PObj (OInt len)))).
+    { intros lr extra st2 Hlen Hex ->. exists extra. cbn. split; [reflexivity|].
+      split; [apply Main; [intros x Hx; apply in_or_app; auto | exact Hlen]|].
+      split; [reflexivity|]. split; [exact B8|]. split; [exact B13|]. split; [eauto | exact Hex]. }
     destruct (dict_get k_Length (s_dict s0)) as [[]|]; try discriminate.
     - destruct (_ =? _)%Z; [|discriminate]. injection Hk as <-.
-      eapply (Fin (LDirect _) (after st)); [auto | reflexivity |].
-      unfold with_after, with_strm, record, emit. cbn. rewrite B7. reflexivity.
+      eapply (Fin (LDirect _) []); [reflexivity | intros x [] |].
+      unfold with_after, with_strm, record, emit. cbn. rewrite B7, app_nil_r. reflexivity.
     - destruct (s_started s).
       + destruct (s_lenref s) as [r|].
         * injection Hk as <-.
-          eapply (Fin (LRef r) (after st1 ++ [(r, 0, PObj (OInt (Z.of_N (N.of_nat (length raw)))))])).
-          -- intros x Hx. rewrite B7. apply in_or_app. left. exact Hx.
+          eapply (Fin (LRef r) [(r, 0, PObj (OInt (Z.of_N (N.of_nat (length raw)))))]).
           -- cbn. left. apply in_or_app. right. left. reflexivity.
-          -- reflexivity.
+          -- intros x [<-|[]]. eauto.
+          -- rewrite B7. reflexivity.
         * destruct (cseek c); [|discriminate]. injection Hk as <-.
-          eapply (Fin (LPadded _) (after st)); [auto | reflexivity |].
-          unfold with_after, with_strm, record, emit. cbn. rewrite B7. reflexivity.
+          eapply (Fin (LPadded _) []); [reflexivity | intros x [] |].
+          unfold with_after, with_strm, record, emit. cbn. rewrite B7, app_nil_r. reflexivity.
       + injection Hk as <-.
-        eapply (Fin (LDirect _) (after st)); [auto | reflexivity |].
-        unfold with_after, with_strm, record, emit. cbn. rewrite B7. reflexivity.
+        eapply (Fin (LDirect _) []); [reflexivity | intros x [] |].
+        unfold with_after, with_strm, record, emit. cbn. rewrite B7, app_nil_r. reflexivity.
   Qed.
 
-  Lemma flush_after_inv l : forall st st',
-    Inv st l -> strm st = None -> flush_after l st = Ok st' ->
-    Inv st' [] /\ strm st' = None /\ closed st' = closed st /\ xtab st' = xtab st /\ after st' = [].
+  Lemma finish_stream_inv st big st' :
+    Inv st (after st) -> finish_stream big st = Ok st' ->
+    Inv st' (after st') /\ strm st' = None /\ closed st' = closed st /\ xtab st' = xtab st /\
+    (exists s, strm st = Some s).
   Proof.
-    induction l as [|[[n g] o] l IH]; intros st st' I Hs H; cbn in H.
-    - injection H as <-. cbn. split; [|auto].
-      destruct I as [P U W S]. constructor; cbn; auto.
-    - destruct o.
-      + binv H.
-        destruct (put_obj_inv st ((n, g, PObj o) :: l) l n g o a I Hs Hb) as [I1 [S1 [C1 [T1 A1]]]].
-        { intros x [<-|Hx]; auto. }
-        destruct (IH _ _ I1 S1 Hk) as [I2 [S2 [C2 [T2 A2]]]].
-        split; [exact I2|]. repeat split; congruence.
-      + binv H. binv Hk. discriminate.
+    intros I H. destruct (finish_stream_gen _ _ _ _ I H) as [extra [A [I1 [S1 [C1 [T1 [E1 _]]]]]]].
+    rewrite A. auto.
   Qed.
 
-  Lemma close_stream_inv st big st' :
-    Inv st (after st) -> close_stream big st = Ok st' ->
-    Inv st' (after st') /\ strm st' = None /\ closed st' = closed st /\ xtab st' = xtab st /\ after st' = [].
+  Lemma inv_pend_weaken st pend pend' :
+    Inv st pend ->
+    (forall r len, In (r, 0, PObj (OInt (Z.of_N len))) pend -> In (r, 0, PObj (OInt (Z.of_N len))) pend') ->
+    Inv st pend'.
   Proof.
-    intros I H. unfold Writer.close_stream in H. binv H.
-    destruct (finish_stream_inv _ _ _ I Hb) as [I1 [S1 [C1 [T1 _]]]].
-    destruct (flush_after_inv _ _ _ I1 S1 Hk) as [I2 [S2 [C2 [T2 A2]]]].
-    rewrite A2. split; [exact I2|]. repeat split; congruence.
+    intros I Hsub.
+    constructor.
+    - exact (inv_pos _ _ I).
+    - intros m off g Hm.
+      apply (good_kept st st pend pend' m off g I (ext_refl st) (grows_refl st));
+        [intros r len Hin; left; auto | intros s Hs; exists s; auto | auto | exact Hm].
+    - exact (inv_wr _ _ I).
+    - exact (inv_strm _ _ I).
   Qed.
 
   Lemma inv_pend_mono st pend pend' a :
@@ -466,6 +473,55 @@ Section Layout.
     unfold open_stream in Hb. rewrite S0 in Hb. binv Hb. unfold set_xref in Hb0.
     destruct (xlookup n (xref st)); [discriminate|]. injection Hb0 as <-.
     destruct (dict_get k_Length d) as [[]|]; try discriminate; injection Hk as <-; reflexivity.
+  Qed.
+
+  Lemma flush_objs_inv l : forall P st st',
+    Inv st (P ++ l) -> strm st = None -> flush_objs l st = Ok st' ->
+    Inv st' P /\ strm st' = None /\ closed st' = closed st /\ xtab st' = xtab st /\ after st' = [].
+  Proof.
+    induction l as [|[[n g] o] l IH]; intros P st st' I Hs H; cbn in H.
+    - injection H as <-. cbn. rewrite app_nil_r in I. split; [|auto].
+      eapply inv_pend_mono; [exact I | auto].
+    - destruct o; [|discriminate]. binv H.
+      destruct (put_obj_inv st (P ++ (n, g, PObj o) :: l) (P ++ l) n g o a I Hs Hb) as [I1 [S1 [C1 [T1 A1]]]].
+      { intros x Hx. apply in_app_or in Hx. destruct Hx as [Hx|[<-|Hx]]; auto using in_or_app. }
+      destruct (IH _ _ _ I1 S1 Hk) as [I2 [S2 [C2 [T2 A2]]]].
+      split; [exact I2|]. repeat split; congruence.
+  Qed.
+
+  Lemma flush_after_inv l : forall st st',
+    Inv st l -> strm st = None -> after st = [] -> flush_after l st = Ok st' ->
+    Inv st' [] /\ strm st' = None /\ closed st' = closed st /\ xtab st' = xtab st /\ after st' = [].
+  Proof.
+    induction l as [|[[n g] o] l IH]; intros st st' I Hs Ha H; cbn in H.
+    - injection H as <-. auto.
+    - destruct o as [o|d data big].
+      + binv H.
+        destruct (put_obj_inv st ((n, g, PObj o) :: l) l n g o a I Hs Hb) as [I1 [S1 [C1 [T1 A1]]]].
+        { intros x [<-|Hx]; auto. }
+        destruct (IH _ _ I1 S1 (eq_trans A1 Ha) Hk) as [I2 [S2 [C2 [T2 A2]]]].
+        split; [exact I2|]. repeat split; congruence.
+      + binv H. binv Hk. binv Hk0.
+        assert (I0 : Inv st l).
+        { apply (inv_pend_weaken st ((n, g, PStream d data big) :: l)); [exact I|].
+          intros r len [Heq|Hin]; [discriminate | exact Hin]. }
+        destruct (put_stream_now_inv _ _ _ _ _ _ _ I0 Hb) as [I1 [_ [A1 [C1 T1]]]].
+        destruct (finish_stream_gen _ _ _ _ I1 Hb0) as [extra [A2 [I2 [S2 [C2 [T2 [_ _]]]]]]].
+        rewrite A1, Ha in A2. cbn in A2. rewrite A2 in Hb1.
+        destruct (flush_objs_inv _ _ _ _ I2 S2 Hb1) as [I3 [S3 [C3 [T3 A3]]]].
+        destruct (IH _ _ I3 S3 A3 Hk) as [I4 [S4 [C4 [T4 A4]]]].
+        split; [exact I4|]. repeat split; congruence.
+  Qed.
+
+  Lemma close_stream_inv st big st' :
+    Inv st (after st) -> close_stream big st = Ok st' ->
+    Inv st' (after st') /\ strm st' = None /\ closed st' = closed st /\ xtab st' = xtab st /\ after st' = [].
+  Proof.
+    intros I H. unfold Writer.close_stream in H. binv H.
+    destruct (finish_stream_inv _ _ _ I Hb) as [I1 [S1 [C1 [T1 _]]]].
+    assert (I1' : Inv (with_after [] a) (after a)) by (eapply inv_pend_mono; [exact I1 | auto]).
+    destruct (flush_after_inv _ _ _ I1' S1 eq_refl Hk) as [I2 [S2 [C2 [T2 A2]]]].
+    rewrite A2. split; [exact I2|]. cbn in C2, T2. repeat split; congruence.
   Qed.
 
   (* the invariant between operations *)
